@@ -350,6 +350,8 @@ def run(tier, seed):
         expected[name] = exp
         if s["part"] == "strin":
             pobs = pns["RX"](name, [lc.xrec_val(rec["x"], PVAL) for rec in recs])
+        elif s.get("form") == "cvar":
+            pobs = pns["RM"](name, s["kind"], [case_args(s, rec) for rec in recs])
         else:
             pobs = pns["RC"](name, [case_args(s, rec) for rec in recs])
         for rec, e, p in zip(recs, exp, pobs):
@@ -406,6 +408,8 @@ def run(tier, seed):
             s, recs = per_func[name]
             if s["part"] == "strin":
                 table.append(["RX", [name, [lc.xrec_arg(rec["x"]) for rec in recs]]])
+            elif s.get("form") == "cvar":
+                table.append(["RM", [name, s["kind"], [case_args(s, rec) for rec in recs]]])
             else:
                 table.append(["RC", [name, [case_args(s, rec) for rec in recs]]])
         jobs.append((b, names, table))
